@@ -39,16 +39,23 @@ class ThreadStop(FnSpec):
         def ots(ex, recv, a, k, n):
             self.log.append("on_thread_stop")
             return None
-        return {"event.set": ev_set, "BaseThread.on_thread_stop": ots}
+        def ev_is_set(ex, recv, a, k, n):
+            # the flag may already be set on entry: stop() after an earlier stop() (any history of start/stop calls)
+            if "flag" in self.log:
+                return VBool(z3.BoolVal(True))
+            return VBool(self.was_set)
+        return {"event.set": ev_set, "event.is_set": ev_is_set, "BaseThread.on_thread_stop": ots}
 
     def setup(self, ex):
         self.me = VObj("BaseThread")
         self.log = []
+        self.was_set = ex.fresh_term(z3.BoolSort(), "flag_already_set")
         ex.heap[(self.me.id, "_stopped_event")] = VOpaque("event")
         return {"self": self.me}
 
     def post(self, ex, result):
-        ex.oblige("post[the stop flag is set BEFORE the thread-specific wake-up runs]", self.log == ["flag", "on_thread_stop"])
+        ex.oblige("post[the stop flag is set BEFORE the thread-specific wake-up runs]", z3.Or(z3.BoolVal(self.log == ["flag", "on_thread_stop"]), z3.And(z3.BoolVal(self.log == ["on_thread_stop"]), self.was_set)))
+        ex.oblige("post[every stop() runs the thread-specific release, also a repeated one: resources created by a start() after a stop() are released]", self.log.count("on_thread_stop") == 1)
 
 
 class DispatcherStop(FnSpec):
